@@ -57,6 +57,10 @@ pub struct SrvRef {
     /// message stream -> key of the accepted, unfinished publish request that arrived on it (only requests whose
     /// stream the tracker could read off the wire); `None` after an ambiguity: stop judging missing media events
     pub_by_sid: Option<std::collections::HashMap<u32, String>>,
+    /// an input call returned Err: the requests of messages handled before the failing one were registered by the
+    /// session but never shown (the results are dropped with the error, known finding K2b), so from here on an id the
+    /// tracker has not seen may well be outstanding
+    blind: bool,
 }
 
 impl SrvRef {
@@ -78,6 +82,7 @@ impl SrvRef {
     /// `new_reqs` = publish / play request ids surfaced, `media` = audio / video / metadata events raised
     fn on_op(&mut self, t: &Track, data: &[u8], failed: bool, err: &str, new_reqs: &[u32], media: usize) -> Option<String> {
         self.start();
+        if failed { self.blind = true; }
         let connected_before = self.accepted_app.is_some();
         let created_before = self.created.clone();
         self.sync_outputs(t);
@@ -170,7 +175,7 @@ impl SrvRef {
     /// verdict of accept (or reject) of `id`: `ok` = the call returned Ok, `inactive` = it failed for a missing stream
     fn on_answer(&mut self, id: u32, accept: bool, ok: bool, err: &str) -> Option<String> {
         match self.pending.remove(&id) {
-            None => if ok || err != "err:requestid" { Some(format!("id-{}-is-not-outstanding-but-the-call-returned-{}", id, if ok { "Ok" } else { err })) } else { None },
+            None => if !self.blind && (ok || err != "err:requestid") { Some(format!("id-{}-is-not-outstanding-but-the-call-returned-{}", id, if ok { "Ok" } else { err })) } else { None },
             Some((kind, app, key)) => {
                 if !ok && !(accept && kind != 0 && err == "err:inactive") { return Some(format!("outstanding-id-{}-refused-with-{}", id, err)); }
                 if accept && ok && kind != 0 { if let Some(sid) = self.req_stream.get(&id) { if self.deleted.contains(sid) { return Some(format!("request-{}-accepted-on-stream-{}-which-was-deleted", id, sid)); } } }
@@ -227,23 +232,28 @@ impl CliRef {
         let ms = match rd.decode_all(data) { Ok(m) => m, Err(_) => { self.peer = None; self.phase = None; return None; } };   // desynchronised: stop judging
         let cmds: Vec<&RMsg> = ms.iter().filter(|m| m.typ == 20).collect();
         let failed = out.split(' ').any(|t| t.starts_with("err:"));
-        // ---- phase: the events the session raised move it forward; a refused status notice leaves it where it was
+        // ---- phase: read off the session's own results only (events raised, commands it sent); the peer's bytes are
+        // consulted solely to recognise the one failure that provably leaves the state alone
         if self.phase.is_some() {
             let name_of = |m: &RMsg| -> Option<Vec<u8>> { match refcodec::decode(&m.data).ok()?.get(0) { Some(crate::amftext::V::Str(n)) => Some(n.clone()), _ => None } };
+            let toks: Vec<&str> = out.split(' ').collect();
             if failed {
                 let lone_status = ms.len() == 1 && cmds.len() == 1 && name_of(cmds[0]).as_deref() == Some(b"onStatus") && out == "err:state";
                 if !lone_status { self.phase = None; }
-            } else if ms.len() == 1 {
-                let p = self.phase.unwrap();
-                if out.split(' ').any(|t| t == "ev:connok") { if p == 0 { self.phase = Some(1); } else { self.phase = None; } }
-                else if out.split(' ').any(|t| t == "ev:playok") { if p == 2 { self.phase = Some(3); } else { return Some(format!("playback-accepted-raised-in-phase-{}", p)); } }
-                else if out.split(' ').any(|t| t == "ev:pubok") { if p == 4 { self.phase = Some(5); } else { return Some(format!("publish-accepted-raised-in-phase-{}", p)); } }
-                else if cmds.len() == 1 && name_of(cmds[0]).as_deref() == Some(b"_result") && self.judge_txn {
-                    if let Ok(vs) = refcodec::decode(&cmds[0].data) { if let Some(crate::amftext::V::Number(t)) = vs.get(1) {
-                        match self.outstanding.get(&(f64::from_bits(*t) as u32)) { Some(&1) if matches!(vs.get(3), Some(crate::amftext::V::Number(_))) => self.phase = Some(2), Some(&2) if matches!(vs.get(3), Some(crate::amftext::V::Number(_))) => self.phase = Some(4), _ => {} } } }
+            } else if toks.iter().any(|t| t.starts_with("out:") && t.contains("UNDECODABLE")) {
+                self.phase = None;
+            } else {
+                // commands the session itself sent in this call (after a createStream answer): `play` / `publish`
+                let sent = |hexname: &str| toks.iter().any(|t| t.starts_with("out:") && t.contains(&format!(".amf(s{};", hexname)));
+                let moves = [toks.iter().any(|t| *t == "ev:connok"), sent("706c6179"), sent("7075626c697368"), toks.iter().any(|t| *t == "ev:playok"), toks.iter().any(|t| *t == "ev:pubok")];
+                if moves.iter().filter(|b| **b).count() > 1 { self.phase = None; }   // several steps in one call: not tracked
+                else if let Some(p) = self.phase {
+                    if moves[0] { self.phase = if p == 0 { Some(1) } else { None }; }
+                    else if moves[1] { self.phase = if p == 1 { Some(2) } else { None }; }
+                    else if moves[2] { self.phase = if p == 1 { Some(4) } else { None }; }
+                    else if moves[3] { if p == 2 { self.phase = Some(3); } else { return Some(format!("playback-accepted-raised-in-phase-{}", p)); } }
+                    else if moves[4] { if p == 4 { self.phase = Some(5); } else { return Some(format!("publish-accepted-raised-in-phase-{}", p)); } }
                 }
-            } else if cmds.iter().any(|m| matches!(name_of(m).as_deref(), Some(b"_result") | Some(b"_error") | Some(b"onStatus"))) {
-                self.phase = None;   // several messages in one call, one of which may move the workflow: not tracked
             }
         }
         // a call that failed may or may not have consumed the transaction it was answering: stop judging transactions
